@@ -39,6 +39,8 @@ var untaintedResults = map[string]struct {
 }
 
 func newTaint(p *core.Program, funcs map[*ssa.Function]bool) *taintState {
+	allocAnywhere = map[*ssa.Alloc]bool{}
+	allocStores = map[*ssa.Alloc][]*ssa.Store{}
 	return &taintState{p: p, funcs: funcs, val: map[ssa.Value]bool{}, field: map[string]bool{}, alloc: map[*ssa.Alloc]bool{}, ret: map[*ssa.Function]map[int]bool{}, out: map[*ssa.Parameter]bool{}}
 }
 
@@ -60,6 +62,48 @@ func (t *taintState) markAlloc(a *ssa.Alloc) {
 		t.alloc[a] = true
 		t.changed = true
 	}
+	if a != nil && !allocAnywhere[a] {
+		allocAnywhere[a] = true
+		t.changed = true
+	}
+}
+
+// markAllocAt: a tainted value is stored into the local variable a by st. A variable that is only ever tainted by plain stores is
+// tainted for the loads a tainting store can reach, not for the ones before it ( n, err = f(); if err != nil {..}; ...; err = g(peer) ).
+func (t *taintState) markAllocAt(a *ssa.Alloc, st *ssa.Store) {
+	if a == nil {
+		return
+	}
+	if !t.alloc[a] {
+		t.alloc[a] = true
+		t.changed = true
+	}
+	for _, s := range allocStores[a] {
+		if s == st {
+			return
+		}
+	}
+	allocStores[a] = append(allocStores[a], st)
+	t.changed = true
+}
+
+// allocAnywhere / allocStores are reset by newTaint (one analysis at a time).
+var (
+	allocAnywhere = map[*ssa.Alloc]bool{}
+	allocStores   = map[*ssa.Alloc][]*ssa.Store{}
+)
+
+// loadTainted: the load u of the tainted variable a sees peer data.
+func loadTainted(a *ssa.Alloc, u *ssa.UnOp) bool {
+	if allocAnywhere[a] || u.X != ssa.Value(a) {
+		return true
+	}
+	for _, st := range allocStores[a] {
+		if st.Parent() != u.Parent() || instrDominates(st, u) || reachesAfter(st, u) {
+			return true
+		}
+	}
+	return false
 }
 
 // baseAlloc: the allocation behind an address expression (&x, &x.f, &x[i], slice of x ...).
@@ -116,7 +160,7 @@ func (t *taintState) stepFunc(f *ssa.Function) {
 				}
 			case *ssa.UnOp:
 				if x.Op == token.MUL {
-					if a := baseAlloc(x.X); a != nil && t.alloc[a] {
+					if a := baseAlloc(x.X); a != nil && t.alloc[a] && loadTainted(a, x) {
 						t.mark(x)
 					}
 					if fa, ok := x.X.(*ssa.FieldAddr); ok {
@@ -127,7 +171,7 @@ func (t *taintState) stepFunc(f *ssa.Function) {
 					if ia, ok := x.X.(*ssa.IndexAddr); ok && t.is(ia.X) {
 						t.mark(x)
 					}
-					if t.is(x.X) {
+					if _, direct := x.X.(*ssa.Alloc); t.is(x.X) && !direct { // loads of a local variable itself: loadTainted above
 						t.mark(x)
 					}
 				} else if t.is(x.X) {
@@ -202,7 +246,11 @@ func (t *taintState) stepFunc(f *ssa.Function) {
 			case *ssa.Store:
 				if t.is(x.Val) {
 					if a := baseAlloc(x.Addr); a != nil {
-						t.markAlloc(a)
+						if x.Addr == ssa.Value(a) {
+							t.markAllocAt(a, x)
+						} else {
+							t.markAlloc(a)
+						}
 					}
 					if fa, ok := x.Addr.(*ssa.FieldAddr); ok {
 						n := core.FieldName(fa)
